@@ -132,6 +132,7 @@ fn main() {
             "C15" => vharness::checks::c15::run(tier),
             "C17" => vharness::checks::c17::run(tier),
             "C18" => vharness::checks::c18::run(tier),
+            "C19" => vharness::checks::c19::run(tier),
             "C20" => vharness::checks::c20::run(tier),
             other => {
                 eprintln!("unknown check {other}");
